@@ -41,6 +41,7 @@ func runC10(c *Ctx) {
 	c10Pairing(c, p, fns, la)
 	c10Globals(c, p, fns, la)
 	c10CheckThenAct(c, p, fns, la)
+	c10MemoPublishOnce(c, p, "memo-publish-once")
 	c10EscapeFromLock(c, p, fns, la)
 }
 
